@@ -153,7 +153,7 @@ func (c *concretiser) pick(pool []string) string {
 
 // related derives a fresh segment from a literal the case already uses: the literal extended by a documented
 // character and more, or a proper prefix of it.
-func (c *concretiser) related() string {
+func (c *concretiser) related(literal bool) string {
 	var lits []string
 	for _, a := range []string{"a", "b", "c", "v", "w"} {
 		if v, ok := c.m[a]; ok && v != "" {
@@ -166,6 +166,9 @@ func (c *concretiser) related() string {
 	base := lits[c.r.Intn(len(lits))]
 	var cand []string
 	for _, suf := range []string{"-archived", ".v2", "_x", "0", "s", "-", ".", "~"} {
+		if literal && suf == "~" {
+			continue // '~' is a path character, not a character of a template literal
+		}
 		cand = append(cand, base+suf)
 	}
 	if rs := []rune(base); len(rs) > 1 {
@@ -215,7 +218,7 @@ func (c *concretiser) seg(a string) string {
 		v = c.pick(litPool)
 		// names that extend one another ("users", "users-archived", "users.v2"): '-' and '.' sort before the '/' that
 		// follows a literal inside a pattern, '_' and letters after it
-		if rel := c.related(); rel != "" && c.r.Intn(3) == 0 {
+		if rel := c.related(true); rel != "" && c.r.Intn(3) == 0 {
 			v = rel
 		}
 	case "p", "q":
@@ -225,7 +228,7 @@ func (c *concretiser) seg(a string) string {
 				v = g
 			}
 		}
-		if rel := c.related(); rel != "" && c.r.Intn(5) == 0 {
+		if rel := c.related(false); rel != "" && c.r.Intn(5) == 0 {
 			v = rel // a free value that extends (or is a prefix of) one of the case's literals
 		}
 	case "7":
